@@ -45,6 +45,7 @@ VARIABLES
     holder,      \* "none" | "exec" | "map": another process executes / has mapped the prior output
     faultAt,     \* phase name at whose fault point a fault fires, or "none"
     faultKind,
+    symlink,     \* TRUE: the output path is a symbolic link to the previous output (libfoo.so -> libfoo.so.1)
     reapable,    \* FALSE: the caller runs wild with SIGCHLD ignored, so waitpid() on the worker fails (ECHILD)
     changeAt,    \* an input file is modified just after the worker passed this point ("none": never)
     changed,     \* an input that was read has been modified since it was opened
@@ -67,9 +68,9 @@ VARIABLES
     held,        \* tokens held by the worker
     threads      \* worker threads in use (0 before the pool exists)
 
-vars == <<fork, multi, prior, shared, wopt, mmapOut, holder, faultAt, faultKind, reapable, changeAt, changed, wph, wstate, wexit, creator,
+vars == <<fork, multi, prior, shared, wopt, mmapOut, holder, faultAt, faultKind, symlink, reapable, changeAt, changed, wph, wstate, wexit, creator,
           outClass, outInode, oldInodeWritten, sibling, temp, pipe, pexit, tokens, held, threads>>
-scenario == <<fork, multi, prior, shared, wopt, mmapOut, holder, faultAt, faultKind, reapable, changeAt>>
+scenario == <<fork, multi, prior, shared, wopt, mmapOut, holder, faultAt, faultKind, symlink, reapable, changeAt>>
 
 (* default_file_write_mode *)
 WriteMode ==
@@ -87,8 +88,13 @@ Init ==
     /\ changeAt \in {Phases[i] : i \in 2..PhaseIdx("written")} \cup {"none"}
     /\ (changeAt # "none" => faultAt = "none")
     /\ changed = FALSE
+    /\ symlink \in BOOLEAN
+    \* Replacing the output replaces the link itself (rename/unlink act on the path), so the inode
+    \* the link pointed to is exactly the `old` inode of this model; only scenarios with a holder
+    \* are distinguished.
+    /\ (symlink => (prior = "file" /\ holder # "none" /\ changeAt = "none"))
     /\ reapable \in BOOLEAN
-    /\ (~reapable => (fork /\ holder = "none" /\ changeAt = "none" /\ prior = "absent" /\ wopt = "default"))
+    /\ (~reapable => (fork /\ holder = "none" /\ changeAt = "none" /\ prior = "absent" /\ wopt = "default" /\ ~symlink))
     /\ faultAt \in {Phases[i] : i \in 2..(NPh - 1)} \cup {"none"}
     /\ faultKind \in FaultKinds
     /\ (faultAt = "none" => faultKind = "error")
